@@ -33,7 +33,8 @@ LEVEL_TEXT = ("Random histories of 3-15 calls (every placer, allocate, route, "
               "everything earlier calls returned, are followed by a probe "
               "call whose structural result is compared with the same probe "
               "executed as the first call of a fresh interpreter image; deep "
-              "snapshots of all arguments are compared around every call.")
+              "snapshots of all arguments are compared around every call."
+              ' The same_objects family hands the library ONE container per role, refilled in place between calls.')
 LEVEL_NOTE = ("Trusted: the structural snapshot/result encoders. Both sides "
               "run with the same PYTHONHASHSEED (it follows the check's seed), the "
               "same seeded random.Random, the "
